@@ -333,6 +333,7 @@ def sany_all():
 
 def run_harness(binary, args, *, stdin_path=None, stdout_path=None, timeout=1800, env=None, cwd=None):
     e = dict(os.environ)
+    e["VERIF_REPO_DIR"] = os.path.abspath(REPO)
     e.update(env or {})
     fin = open(stdin_path, "rb") if stdin_path else subprocess.DEVNULL
     fout = open(stdout_path, "wb") if stdout_path else subprocess.PIPE
